@@ -22,6 +22,17 @@ package keeper
 //@   ensures [C09] #c09-only-unsafe: result == nil && gone ==> old(K("vault").CalculateCollateralizationRatio(ctx, v0.ExtendedPairVaultID, v0.AmountIn, v0.AmountOut + v0.InterestAccumulated + v0.ClosingFeeAccumulated).1 == nil && K("vault").CalculateCollateralizationRatio(ctx, v0.ExtendedPairVaultID, v0.AmountIn, v0.AmountOut + v0.InterestAccumulated + v0.ClosingFeeAccumulated).0 < ep.MinCr)
 //@   cover #seizure-reachable: result == nil && gone
 
+// First-generation vault sweep (C15): outside its wrapped per-vault steps the sweep itself never panics. In particular the
+// batch window it cuts out of the vault list stays inside the list read in the same pass: the window is computed from the
+// vault counter, and the counter never exceeds the number of vault records (a data invariant of x/vault, assumed here).
+//@ func (k Keeper) LiquidateVaults
+//@   property C15
+//@   requires #count-matches-list: k.vault.GetLengthOfVault(ctx) <= len(k.vault.GetVaults(ctx))
+//@   requires #batch-bound: k.GetParams(ctx).LiquidationBatchSize <= pow2(62) && len(k.vault.GetVaults(ctx)) <= pow2(62)
+//@   loop 0 invariant assumed #count-matches-list: k.vault.GetLengthOfVault(ctx) <= len(k.vault.GetVaults(ctx))
+//@   loop 0 invariant assumed #list-bound: len(k.vault.GetVaults(ctx)) <= pow2(62)
+//@   nopanic
+
 // Manual liquidation message of the first-generation module (C14, C09): refused while the circuit breaker or the emergency
 // shutdown of the VAULT's own app is on (whatever app id the message names), and a vault is only ever seized when its
 // ratio, at the oracle price in force, is below the product's minimum.
